@@ -475,9 +475,22 @@ func init() {
 					delete(cs[i].P, "rejoin")
 				}
 			}
+			// one DAG through a Hashgraph on Badger whose cache is smaller than the
+			// number of events in flight (c04dag.go)
+			small := 6
+			if tier == "thorough" {
+				small = 60
+			}
+			for j := 0; j < small; j++ {
+				cs = append(cs, CaseSpec{Kind: "dag-smallcache",
+					P: map[string]int64{"n": int64(4 + j%2), "events": int64(300 + 40*(j%3)), "cache": int64(40 + 10*(j%3))}})
+			}
 			return cs
 		},
 		Run: func(cs CaseSpec) *CaseResult {
+			if cs.Kind == "dag-smallcache" {
+				return runC04SmallCache(cs)
+			}
 			return runHistory(cs, func(nw *Network) []Monitor { return []Monitor{NewMonCausality()} }, nil)
 		},
 		PerCaseTimeout: 15 * time.Minute,
